@@ -84,7 +84,7 @@ CLAIMED = {
         text=("Theorems over the literal model of the iterator loop under sorted inputs and closed intervals: slots concatenate to the inputs, groups are non-empty, two records share a group iff a chain of overlaps links them, "
               "groups are emitted in key order. Tied by comparing group structure on random and (thorough) exhaustive small configurations; the oracle computes connected components of the overlap graph. "
               "Tie by translation: the overlap predicate LocatableOverlapIterator.__overlaps is translated from the working tree on every run (Generated/Bodies.lean) and C11Bodies.overlaps_eq / overlaps_barcodeKey / "
-              "overlaps_eq_overlapsHead state that interpreting it on key objects equals the model's overlapsHead (same chromosome, lo.start <= cur.start <= the widened end) for every pair of keys."),
+              "overlaps_eq_overlapsHead / overlaps_with_barcode_eq(_overlapsHead) state that interpreting both overlap predicates on key objects equals the model's overlapsHead (same chromosome - and barcode pair - and lo.start <= cur.start <= the widened end) for every pair of keys."),
         note="the enforcing/peekable wrappers are observed (out-of-order inputs must raise), not modelled in Lean",
         design="§6 C11"),
     "C12": dict(
